@@ -496,7 +496,7 @@ class BoundedTransform(BaseTransform):
         """
         y = (x - self.lower) / self._denom
         log_j = self._scale_log_abs_det_jacobian * self.xp.ones(
-            y.shape[0], device=get_device(y)
+            y.shape[0], device=get_device(y), dtype=self.dtype
         )
         return y, log_j
 
@@ -515,7 +515,7 @@ class BoundedTransform(BaseTransform):
         """
         x = self._denom * y + self.lower
         log_j = -self._scale_log_abs_det_jacobian * self.xp.ones(
-            x.shape[0], device=get_device(x)
+            x.shape[0], device=get_device(x), dtype=self.dtype
         )
         return x, log_j
 
@@ -632,13 +632,13 @@ class AffineTransform(BaseTransform):
     def forward(self, x):
         y = (x - self._mean) / self._std
         return y, self.log_abs_det_jacobian * self.xp.ones(
-            y.shape[0], device=get_device(y)
+            y.shape[0], device=get_device(y), dtype=self.dtype
         )
 
     def inverse(self, y):
         x = y * self._std + self._mean
         return x, -self.log_abs_det_jacobian * self.xp.ones(
-            y.shape[0], device=get_device(y)
+            y.shape[0], device=get_device(y), dtype=self.dtype
         )
 
     def config_dict(self):
